@@ -792,6 +792,13 @@ def classify(ctx, spec, infos, impl):
             if p.clipc is not None:
                 ctx.stat('sigma-clip', 'rejects' if (p.clipc & ~p.m0c).any() else 'rejects-nothing')
     ctx.stat('hypotheses', 'sum-weights-nonneg' if all(p.nonneg for p in infos) else 'negative-sum-weight(exact annulus)')
+    ws_, lat_ = weight_scale(spec, infos)
+    if not lat_ and spec['sum_method'] != 'center':
+        for p in infos:
+            z = p.Ws * ws_
+            ctx.stat('sum-weights', 'rounded-to-1/WS-grid(slack-bounded)' if np.any(z != np.round(z)) else 'non-dyadic-but-exact-at-1/WS')
+    else:
+        ctx.stat('sum-weights', 'exact-lattice', len(infos))
     ctx.stat('class', spec['aper']['cls'] + ('(sky)' if spec.get('wcs') else ''))
     ctx.stat('sum_method', spec['sum_method'] + (f"/{spec['subpixels']}" if spec['sum_method'] == 'subpixel' else ''))
     ctx.stat('sigma_clip', 'None' if spec['sigma_clip'] is None else
@@ -821,8 +828,11 @@ def run(ctx):
         'mad_std / biweight_* / std: numpy / astropy functions applied to the proved value list (Python oracle); '
         'covariance regularisation, eigenvalues and the derived shape values are compared in Python with decision '
         'margins, not modelled in Coq',
-        "sum_method='exact' on curved apertures has non-dyadic weights: those sums are compared within 2^-40 "
-        'relative (in Coq) and 1e-12 (Python), everything else exactly / correctly rounded']
+        "sum_method='exact' on curved apertures has non-dyadic weights: they are handed to Coq rounded to the 2^-60 "
+        'grid and sum / sum_err^2 / sum_aper_area are compared within 2^-40 relative PLUS the rigorous bound of that '
+        'rounding (sum |data-bkg|, sum err^2, number of cells, times 2^-60; quant_slack in C16_Model.v); the Python '
+        'oracle compares the same quantities with aperture_photometry / area_overlap at 1e-12; everything else '
+        'exactly / correctly rounded']
     ctx.cov['partial_clauses'] = [
         'covariance after the 1/12 regularisation loop: mirrored in the Coq model and compared (2^-40) where no '
         'float decision (det < 0, det < 1/144) is within 2^-30 of a tie; eigenvalues and the derived shape values '
